@@ -12,7 +12,9 @@ Justification, against Mathlib's `Language α`, `Set.Finite`, `Set.ncard` and
             (gvc/sets.py, gvc/symexec.py), which are used for termination measures.
             F2a, F3a, F4c, F5a..F5c restate them in exactly the shape generated
             on the SMT side;
-* (R1, R2)  reverse of lists (SMT lemmas).
+* (R1, R2)  reverse of lists (SMT lemmas);
+* (X1, F7..F10) language extensionality, set-at-a-time cardinality facts, and finiteness of the set of subset names
+            (axiom `pow-fin` of theory `subset`: termination measure of `nfa_to_dfa`).
 
 SMT side                          Mathlib side
 --------                          ------------
@@ -168,5 +170,13 @@ theorem F8_ncard_union_le {β : Type u} (A B : Set β) : (A ∪ B).ncard ≤ A.n
 /-- (F9) a union is finite iff both parts are (SMT axiom `fin-union`). -/
 theorem F9_finite_union {β : Type u} (A B : Set β) : (A ∪ B).Finite ↔ A.Finite ∧ B.Finite :=
   Set.finite_union
+
+/-- (F10) a finite set has finitely many subsets, hence finitely many subset names: the SMT axiom `pow-fin` of theory `subset`
+    (`pow_names A = {x | setOf x ⊆ A ∧ name (setOf x) = x}` is contained in the image of the powerset under `name`). -/
+theorem F10_finite_pow_names {β γ : Type u} (name : Set β → γ) (setOf : γ → Set β) (A : Set β) (hA : A.Finite) :
+    {x : γ | setOf x ⊆ A ∧ name (setOf x) = x}.Finite := by
+  apply Set.Finite.subset (hA.powerset.image name)
+  intro x hx
+  exact ⟨setOf x, hx.1, hx.2⟩
 
 end GvcTheory
